@@ -94,6 +94,40 @@ def _worker(job):
     return results
 
 
+# one algorithm object, several datasets in a row (same shape / other labels, other types, then the first again)
+_SIX = [[{1}, {2}, {3}, {4}, {5}, {6}], [{2}, {1}, {4}, {3}, {6}, {5}], [{6}, {5}, {4, 3}, {2}, {1}]]
+REUSE = [
+    ("six-ints", _SIX),
+    ("six-ints-relabelled", [[{x + 10 for x in b} for b in r] for r in _SIX]),
+    ("six-strings", [[{"abcdefg"[x] for x in b} for b in r] for r in _SIX]),
+    ("three", [[{1}, {2}, {3}], [{2}, {3}, {1}], [{3}, {1}, {2}]]),
+    ("three-relabelled", [[{7}, {8}, {9}], [{8}, {9}, {7}], [{9}, {7}, {8}]]),
+    ("six-ints-again", _SIX),
+]
+
+
+def _reuse_worker(job):
+    overlay, idx = job
+    proj = Project(overlay=overlay)
+    w = E2EWorld(proj, "first")
+    clabel, alg, kind = configurations(w)[idx]
+    out = []
+    for slabel, pen in (("unifying", UNIFYING), ("induced", INDUCED)):
+        sch = w.scheme(pen)
+        for dlabel, raws in REUSE:
+            ds = w.dataset(raws)
+            st, c = w.try_compute(alg, ds, sch, True)
+            if st != "ok":
+                out.append((clabel, f"scheme {slabel}, dataset {dlabel} {raws} (after {[d for d, _ in REUSE][:[d for d, _ in REUSE].index(dlabel)]} "
+                                    f"on the same object): raised {c}"))
+                continue
+            probs = problems_of(w, c, ds, True)
+            out.append((clabel, (f"scheme {slabel}, dataset {dlabel} {raws} after "
+                                 f"{[d for d, _ in REUSE][:[d for d, _ in REUSE].index(dlabel)]} on the same object: {probs[0]}")
+                        if probs else None))
+    return out
+
+
 def run(ctx) -> Result:
     res = Result("C03")
     proj = ctx.proj
@@ -121,6 +155,27 @@ def run(ctx) -> Result:
                   bad_detail=(f"dataset {dict(DATASETS)[dlabel]}: {probs[0]}" +
                               (f" [+{len(probs) - 1} more]" if len(probs) > 1 else "")) if probs else "")
     res.extra["end_to_end_evaluations"] = n_eval
+    res.explored_threshold = 5         # datasets of 1 to 6 elements are evaluated end to end
+    # W6: the same algorithm object reused
+    res.rule("W6", "an algorithm object reused on several datasets in a row returns, each time, a well-formed consensus "
+                   "over that call's universe", 12)
+    w0 = E2EWorld(proj, "first")
+    nconf = len(configurations(w0))
+    agg2: Dict[str, List] = {}
+    with ProcessPoolExecutor(max_workers=min(nconf, os.cpu_count() or 1)) as ex:
+        for results in ex.map(_reuse_worker, [(proj.overlay, i) for i in range(nconf)]):
+            for clabel, problem in results:
+                agg2.setdefault(clabel, [])
+                if problem is not None:
+                    agg2[clabel].append(problem)
+    for clabel, probs in sorted(agg2.items()):
+        res.check(not probs, "W6", f"{clabel}:reused", "corankco/algorithms",
+                  ok_detail=f"{2 * len(REUSE)} consecutive calls on one object: each consensus is over its own call's universe",
+                  bad_detail=probs[0] if probs else "")
+    # W5: the projection ParCons and the CPLEX front end hand to the sub-solvers
+    res.rule("W5", "Dataset.sub_problem_from_elements = definitional projection for every kept subset", 1)
+    from . import C16
+    C16.check_projection(res, proj, "W5", thorough=ctx.thorough)
     # W3 / W4 / W5: scenario rules shared with the properties that own the mechanisms
     sub = Result("C03")
     C11.run_v3_only(sub, proj)
